@@ -196,6 +196,14 @@ def dump_graph(scope):
         g.flows.append({'own': own, 'parents': parents, 'chain': chain, 'hide': hide,
                         'hint': getattr(f, 'hint', '?'),
                         'scope_kind': type(fs).__name__})
+    # Flow._closes must be what the model derives from the loop table (first loop targeting the flow)
+    inv_loop = {v: k for k, v in loop_ids.items()}
+    for i, f in enumerate(flows):
+        c = _need(f, '_closes')
+        want = closes_of(g, i)
+        have = None if c is None else loop_ids.get(id(c), -1)
+        if have != want:
+            raise DumpError('Flow._closes of flow %d is not the first loop that targets it' % i)
     # pseudo flows
     g.flows.append({'own': bown, 'parents': [], 'chain': [], 'hide': None, 'hint': 'builtins', 'scope_kind': 'BuiltinScope'})
     gl = _need(scope, '_global_names')
@@ -266,6 +274,14 @@ def over(e1, e2):
     return r
 
 
+def closes_of(g, f):
+    """Flow._closes as the model derives it: the first loop whose target is f"""
+    for l, t in enumerate(g.loops):
+        if t == f:
+            return l
+    return None
+
+
 class Pure(object):
     """names_pure: no memo (exponential on diamonds; use only on small graphs)."""
 
@@ -278,6 +294,9 @@ class Pure(object):
         self.steps += 1
         if self.steps > self.limit:
             raise RuntimeError('pure evaluation too large')
+        l = closes_of(self.g, f)
+        if l is not None and l not in R:          # Flow.names: a flow closing a loop answers with the loop
+            return self.names(f, R | {l})
         return over(own_env(self.g, f), self.parent_names(f, R))
 
     def parent_names(self, f, R):
@@ -303,17 +322,19 @@ class Pure(object):
 
 
 class MemoDeps(object):
-    """loop_memo of scope.py (the policy now in /repo): permanent layer + one layer per
-    resolution in progress, dependency sets."""
+    """loop_memo of scope.py (policy of commit 0211a17): permanent layer + one layer per resolution
+    in progress, looked up outside-in; a value is stored in the layer of the innermost loop it
+    depends on; a flow that closes a loop answers with the loop."""
 
     def __init__(self, g):
         self.g = g
         self.memo = [{}]
+        self.stack = [None]
         self.deps = [set()]
         self.resolving = set()
 
     def call(self, key, func):
-        for m in (self.memo[0], self.memo[-1]):
+        for m in self.memo:
             if key in m:
                 v, d = m[key]
                 self.deps[-1] |= d
@@ -322,10 +343,17 @@ class MemoDeps(object):
         v = func()
         d = self.deps.pop()
         self.deps[-1] |= d
-        self.memo[-1 if d else 0][key] = (v, frozenset(d))
+        try:
+            layer = max([self.stack.index(l) for l in d] or [0])
+        except ValueError:
+            return v
+        self.memo[layer][key] = (v, frozenset(d))
         return v
 
     def names(self, f):
+        l = closes_of(self.g, f)
+        if l is not None and l not in self.resolving:
+            return self.loop(l)
         return self.call(('n', f), lambda: over(own_env(self.g, f), self.parent_names(f)))
 
     def loop(self, l):
@@ -336,7 +364,9 @@ class MemoDeps(object):
         def resolve():
             self.resolving.add(l)
             self.memo.append({})
+            self.stack.append(l)
             v = self.names(self.g.loops[l])
+            self.stack.pop()
             self.memo.pop()
             self.deps[-1].discard(l)
             self.resolving.discard(l)
